@@ -24,8 +24,8 @@ CHECKS = {
  'C01': ('matcher', "Theorems C01_tame/C01_reachable/C01_schema: for every history on a Tame template, a passing final check implies the serialised child word is in the pinned schema's content model (via C03.templates_lang_eq and the verified matcher)." + SLOT_NOTE, 'Lean 4 theorems (invariant by induction over operation histories) + differential correspondence real library / Mfull / Msimple'),
  'C02': ('matcher', "Theorems C02_tame/C02_schema: every word of every Tame content model (unbounded repetition included), supplied in order, is accepted, passes the final check and is serialised as supplied." + SLOT_NOTE, 'Lean 4 theorems over all words of 68 regular languages + differential correspondence'),
  'C03': ('tables', "Lean 4 theorems over the complete tables regenerated from /repo on every run (441 element classes, 94 container templates + 98 per-instance copies, 228 attribute tables, 151 simple types, 45+27 groups, schema file hashes) and from the pinned MusicXML 4.0 schema; content models are proved language-equivalent for all words (Particle.equivB_sound), not sampled. Partial: 7 attribute tables that the library cannot even build (open findings F9) are excluded by name; 'accepts exactly the language' at run time is C01/C02.", 'Lean 4 kernel-decided table theorems (decide +kernel) lifted by proved lemmas; translator regenerates tables each run'),
- 'C06': ('matcher', "Theorems ordered_perm/ids_nodup_run/C06_tame: on Tame templates, for every history with fresh children, the schema-ordered view is a permutation of the insertion-ordered view (the ledger) and no child occurs twice; parent pointers are checked by the correspondence run." + MATCHER_NOTE, 'Lean 4 theorems (refinement to the ledger) + differential correspondence incl. parent pointers'),
- 'C07': ('matcher', "Theorems C07_complete_flat / C07_complete_rootChoice (every reachable state of a Tame element can be completed: explicit completion, all of it accepted, final check passes; side condition minOccurs <= maxOccurs decided on the regenerated templates) and C07_reject_needed_flat / _rootChoice (a child is rejected only if no valid arrangement contains it with the present children)." + MATCHER_NOTE, 'Lean 4 theorems (explicit completion witness) + differential correspondence; bounded completion search only to classify a broken correspondence'),
+ 'C06': ('matcher', "Theorems ordered_perm/ids_nodup_run/C06_tame: on Tame templates, for every history with fresh children, the schema-ordered view is a permutation of the insertion-ordered view (the ledger) and no child occurs twice; parent pointers are checked by the correspondence run." + SLOT_NOTE, 'Lean 4 theorems (refinement to the ledger) + differential correspondence incl. parent pointers'),
+ 'C07': ('matcher', "Theorems C07_complete_flat / C07_complete_rootChoice (every reachable state of a Tame element can be completed: explicit completion, all of it accepted, final check passes; side condition minOccurs <= maxOccurs decided on the regenerated templates) and C07_reject_needed_flat / _rootChoice (a child is rejected only if no valid arrangement contains it with the present children)." + SLOT_NOTE, 'Lean 4 theorems (explicit completion witness) + differential correspondence; bounded completion search only to classify a broken correspondence'),
  'C10': ('matcher', "Model side: a raising call returns the old state (C10_tame, C10_then_supply); that the code touches nothing before raising on Tame templates is established by the correspondence run (observation after every failing call, next-child probes)." + SLOT_NOTE, 'Lean 4 theorems on the model + differential correspondence around every failing call'),
  'C11': ('matcher', "Theorem C11_rebuild/C11_tame: every reachable state of a Tame element equals the state reached by adding its surviving children to a fresh element in the same order (holds for the code since the fix: commit e0de9ac)." + SLOT_NOTE, 'Lean 4 theorem (state rebuild) + differential correspondence with removals'),
  'C12': ('matcher', "Theorems C12_tame_perm/same_name_in_insertion_order: every permutation of a valid multiset is accepted on Tame templates and serialises in the valid arrangement, same-named children in insertion order." + SLOT_NOTE, 'Lean 4 theorems over all permutations + differential correspondence'),
